@@ -599,27 +599,49 @@ Proof.
   intros force legacy cs ca [lo pc lfl mfa lbf lfa] e (Hlo & Hbf & _) Hfa Hle Hlt st2 tail st3 pad.
   cbn [latest_offset last_field_was_bitfield last_field_was_flexible_array] in Hlo, Hbf, Hfa.
   subst lo lbf lfa. unfold tail_of.
-  assert (Hpad : forall pc' mfa' st3 pad,
+  assert (Hpad : forall lo' pc' mfa' st3 pad, lo' <= cs -> cs - lo' < ca ->
     step (layout_env force legacy cs ca)
-      {| latest_offset := e; padding_count := pc'; latest_field_layout := lfl;
+      {| latest_offset := lo'; padding_count := pc'; latest_field_layout := lfl;
          max_field_align := mfa'; last_field_was_bitfield := false;
          last_field_was_flexible_array := false |} (PadStruct cs ca) = (st3, pad) ->
     pad = None /\ max_field_align st3 = mfa').
-  { intros pc' mfa' s3 p. cbn [step latest_offset last_field_was_bitfield andb orb repr_align negb].
-    destruct (N.ltb_spec cs e) as [|_]; [lia|].
-    destruct (cs - e =? 0); [intros H; injection H as <- <-; now split|].
-    destruct (N.leb_spec ca (cs - e)) as [|_]; [lia|].
+  { intros lo' pc' mfa' s3 p Hle' Hlt'.
+    cbn [step latest_offset last_field_was_bitfield andb orb repr_align negb].
+    destruct (N.ltb_spec cs lo') as [|_]; [lia|].
+    destruct (cs - lo' =? 0); [intros H; injection H as <- <-; now split|].
+    destruct (N.leb_spec ca (cs - lo')) as [|_]; [lia|].
     cbn [orb]. intros H; injection H as <- <-; now split. }
   cbn [step layout_env force_explicit_padding is_union is_rust_union latest_offset
        last_field_was_flexible_array].
   destruct force; cbn [negb andb].
   - destruct (e =? cs); cbn [negb].
-    + intros H; injection H as <- <-. intros H2. apply Hpad in H2 as [-> ->]. now repeat split.
+    + intros H; injection H as <- <-. intros H2. apply Hpad in H2 as [-> ->]; [|lia|lia].
+      now repeat split.
     + unfold padding_field. cbn [latest_offset padding_count latest_field_layout
         max_field_align last_field_was_bitfield last_field_was_flexible_array snd].
-      intros H; injection H as <- <-. intros H2. apply Hpad in H2 as [-> ->].
+      intros H; injection H as <- <-. intros H2. apply Hpad in H2 as [-> ->]; [|lia|lia].
       repeat split. lia.
-  - intros H; injection H as <- <-. intros H2. apply Hpad in H2 as [-> ->]. now repeat split.
+  - intros H; injection H as <- <-. intros H2. apply Hpad in H2 as [-> ->]; [|lia|lia].
+    now repeat split.
+Qed.
+
+(* whenever add_tail_padding emits a field it leaves the tracker at the end of the struct,
+   and the pad_struct that follows (same layout) emits nothing: no side condition *)
+Theorem tail_padding_then_pad_struct_adds_nothing : forall env st size align st1 l,
+  step env st (AddTailPadding size align) = (st1, Some l) ->
+  latest_offset st1 = size /\
+  snd (step env st1 (PadStruct size align)) = None.
+Proof.
+  intros env st size align st1 l H.
+  assert (Hlo : latest_offset st1 = size).
+  { cbn [step] in H.
+    destruct (negb (force_explicit_padding env)); [discriminate H|].
+    destruct (is_union env); [discriminate H|].
+    destruct (last_field_was_flexible_array st); [discriminate H|].
+    destruct (latest_offset st =? size); [discriminate H|].
+    unfold padding_field in H. injection H as <- _. reflexivity. }
+  split; [exact Hlo|].
+  cbn [step]. rewrite Hlo, N.ltb_irrefl, N.sub_diag. reflexivity.
 Qed.
 
 Lemma maxal_pos : forall ms, forallb member_ok ms = true -> ms <> [] -> 1 <= maxal ms.
@@ -1059,11 +1081,12 @@ Example for_size_internal_nonvacuous :
   for_size_internal 4 24 = (24, 4) /\ for_size_internal 8 0 = (0, 8).
 Proof. repeat split; vm_compute; reflexivity. Qed.
 
-(* struct { int a : 1; } with --explicit-padding: add_tail_padding emits 3 bytes
-   without advancing latest_offset, then pad_struct emits the same 3 bytes again *)
-Example explicit_padding_bitfield_double_tail :
+(* struct { int a : 1; } with --explicit-padding: add_tail_padding emits 3 bytes and
+   advances latest_offset to the size; since the fix, the tail is padded once
+   (before it, pad_struct emitted the same 3 bytes again: size 7 instead of 4) *)
+Example explicit_padding_bitfield_single_tail :
   snd (run (plain_env true 4 4) init_state
          [SawBitfieldUnit 1 1; AddTailPadding 4 4; PadStruct 4 4])
-    = [None; Some (3, 0); Some (3, 1)] /\
-  rust_size_align None [RField 1 1; blob_field (3, 0); blob_field (3, 1)] = (7, 1).
+    = [None; Some (3, 0); None] /\
+  rust_size_align None [RField 1 1; blob_field (3, 0)] = (4, 1).
 Proof. split; vm_compute; reflexivity. Qed.
